@@ -576,6 +576,11 @@ func runCase(c corr.Case) (res corr.Result) {
 			defer func() {
 				if r := recover(); r != nil {
 					o = "panic"
+					// iterators without room and GetN with a negative count handle their own (expected) panics inside the op;
+					// a panic that escapes any operation is one of an API call on a valid input
+					if f := strings.Fields(l); len(f) > 0 {
+						st.hit("op:"+f[0], "panic", fmt.Sprintf("`%s` panicked: %v", l, r))
+					}
 				}
 			}()
 			return st.run(l)
